@@ -156,8 +156,10 @@ VARIABLES
 impl == <<x, pc, buf, net, eof, copen, hdr, bleft, tr, err>>
 vars == <<msgs, ref, impl, obsvars, warcDone>>
 
-LFIndex(s) == LET S == {i \in 1..Len(s) : s[i] = LF} IN
-              IF S = {} THEN 0 ELSE CHOOSE i \in S : \A j \in S : i <= j
+\* position of the first LF (0: none); written so that TLC evaluates it in linear time
+LFIndex(s) == IF \E i \in 1..Len(s) : s[i] = LF
+              THEN CHOOSE i \in 1..Len(s) : s[i] = LF /\ \A j \in 1..(i - 1) : s[j] # LF
+              ELSE 0
 
 InitWith(ms) ==
   /\ msgs = ms
@@ -255,9 +257,9 @@ Strategy ==
   ELSE IF HasField(KCL) THEN "length" ELSE "close"
 
 \* ---- Stream.read_response: one header line
-HdrLine ==
+HdrLineAt(j) ==
   /\ pc = "hdr" /\ LineReady
-  /\ \E j \in LineExtents : TakeLine(j)
+  /\ TakeLine(j)
   /\ LET l == TheLine IN
      /\ Notify(l)
      /\ IF ~EndsLF(l) THEN Raise("network_error") /\ UNCHANGED hdr                   \* 'Connection closed.'
@@ -292,13 +294,16 @@ LenDone ==
   /\ pc' = "fin"
   /\ UNCHANGED <<msgs, ref, x, buf, net, eof, copen, hdr, bleft, tr, err, obsvars, warcDone>>
 
-LenRead ==
+LenEOF ==
+  /\ pc = "len" /\ bleft > 0 /\ AtEOF                              \* EOF before n bytes: 'Connection closed.'
+  /\ Raise("network_error")
+  /\ UNCHANGED <<buf, net, copen, bleft, delivered, recorded>>
+  /\ UNCHANGED <<msgs, ref, x, eof, hdr, tr, reqRecorded, reqSent, outcome, connClosed, leftover, unseen, stalled,
+                 reqRecs, respRecs, reqBlock, respBlock, linked, warcDone>>
+
+LenReadAt(k) ==
   /\ pc = "len" /\ bleft > 0
-  /\ \/ /\ AtEOF                                                   \* EOF before n bytes: 'Connection closed.'
-        /\ Raise("network_error")
-        /\ UNCHANGED <<buf, net, copen, bleft, delivered, recorded>>
-     \/ \E k \in PieceChoices :
-          LET got == Prefix(Avail(k), ReadSize)
+  /\      LET got == Prefix(Avail(k), ReadSize)
               n == Len(got)
               data == IF n > bleft THEN SubSeq(got, 1, bleft) ELSE got IN
           /\ TakeBytes(ReadSize, k)
@@ -310,12 +315,15 @@ LenRead ==
                  reqRecs, respRecs, reqBlock, respBlock, linked, warcDone>>
 
 \* ---- _read_body_until_close
-CloseRead ==
+CloseEOF ==
+  /\ pc = "close" /\ AtEOF
+  /\ pc' = "fin" /\ UNCHANGED <<buf, net, delivered, recorded>>
+  /\ UNCHANGED <<msgs, ref, x, eof, copen, hdr, bleft, tr, err, reqRecorded, reqSent, outcome, connClosed, leftover,
+                 unseen, stalled, reqRecs, respRecs, reqBlock, respBlock, linked, warcDone>>
+
+CloseReadAt(k) ==
   /\ pc = "close"
-  /\ \/ /\ AtEOF
-        /\ pc' = "fin" /\ UNCHANGED <<buf, net, delivered, recorded>>
-     \/ \E k \in PieceChoices :
-          /\ TakeBytes(ReadSize, k)
+  /\      /\ TakeBytes(ReadSize, k)
           /\ Notify(Prefix(Avail(k), ReadSize)) /\ Deliver(Prefix(Avail(k), ReadSize))
           /\ UNCHANGED pc
   /\ UNCHANGED <<msgs, ref, x, eof, copen, hdr, bleft, tr, err, reqRecorded, reqSent, outcome, connClosed, leftover,
@@ -326,13 +334,14 @@ IsHex(c) == c \in 48..57 \/ c \in 97..102 \/ c \in 65..70
 HexOf(c) == IF c \in 48..57 THEN c - 48 ELSE IF c \in 97..102 THEN c - 87 ELSE c - 55
 RECURSIVE HexVal(_, _)
 HexVal(s, acc) == IF s = <<>> THEN acc ELSE HexVal(Tail(s), Min(acc * 16 + HexOf(s[1]), 100000))
-SizeField(l) == LET S == {i \in 1..Len(l) : l[i] = 59}
-                    e == IF S = {} THEN Len(l) ELSE (CHOOSE i \in S : \A j \in S : i <= j) - 1 IN
+SizeField(l) == LET e == IF \E i \in 1..Len(l) : l[i] = 59
+                         THEN (CHOOSE i \in 1..Len(l) : l[i] = 59 /\ \A j \in 1..(i - 1) : l[j] # 59) - 1
+                         ELSE Len(l) IN
                 SelectSeq(SubSeq(l, 1, e), LAMBDA c : ~White(c))
 
-ChHdr ==
+ChHdrAt(j) ==
   /\ pc = "ch_hdr" /\ LineReady
-  /\ \E j \in LineExtents : TakeLine(j)
+  /\ TakeLine(j)
   /\ LET l == TheLine
          f == SizeField(l) IN
      IF ~EndsLF(l) THEN Raise("network_error") /\ UNCHANGED <<bleft, recorded>>
@@ -346,12 +355,15 @@ ChHdr ==
                  unseen, stalled, reqRecs, respRecs, reqBlock, respBlock, linked, warcDone>>
 
 \* ---- read_chunk_body, bytes_left > 0: connection.read(min(bytes_left, 4096))
-ChBody ==
+ChBodyEOF ==
+  /\ pc = "ch_body" /\ AtEOF                     \* empty read: "chunk finished" -> the next header read hits EOF
+  /\ pc' = "ch_hdr" /\ UNCHANGED <<buf, net, bleft, delivered, recorded>>
+  /\ UNCHANGED <<msgs, ref, x, eof, copen, hdr, tr, err, reqRecorded, reqSent, outcome, connClosed, leftover,
+                 unseen, stalled, reqRecs, respRecs, reqBlock, respBlock, linked, warcDone>>
+
+ChBodyAt(k) ==
   /\ pc = "ch_body"
-  /\ \/ /\ AtEOF                               \* empty read: "chunk finished" -> the next header read hits EOF
-        /\ pc' = "ch_hdr" /\ UNCHANGED <<buf, net, bleft, delivered, recorded>>
-     \/ \E k \in PieceChoices :
-          LET data == Prefix(Avail(k), Min(bleft, ReadSize)) IN
+  /\      LET data == Prefix(Avail(k), Min(bleft, ReadSize)) IN
           /\ TakeBytes(Min(bleft, ReadSize), k)
           /\ bleft' = bleft - Len(data)
           /\ Notify(data) /\ Deliver(data)
@@ -360,9 +372,9 @@ ChBody ==
                  unseen, stalled, reqRecs, respRecs, reqBlock, respBlock, linked, warcDone>>
 
 \* ---- read_chunk_body, bytes_left = 0: the line end after the chunk data
-ChNl ==
+ChNlAt(j) ==
   /\ pc = "ch_nl" /\ LineReady
-  /\ \E j \in LineExtents : TakeLine(j)
+  /\ TakeLine(j)
   /\ LET l == TheLine IN
      IF Len(l) > 2 THEN Raise("protocol_error") /\ UNCHANGED recorded          \* 'Error reading newline after chunk.'
      ELSE Notify(l) /\ pc' = "ch_hdr" /\ UNCHANGED err
@@ -379,9 +391,9 @@ BadTrailer(s) ==
            r == IF i > 0 THEN SubSeq(s, i + 1, Len(s)) ELSE <<>> IN
        (~Blank(l) /\ ~(\E j \in 1..Len(l) : l[j] = 58)) \/ BadTrailer(r)
 
-Trailer ==
+TrailerAt(j) ==
   /\ pc = "trailer" /\ LineReady
-  /\ \E j \in LineExtents : TakeLine(j)
+  /\ TakeLine(j)
   /\ LET l == TheLine
          t == tr \o l IN
      IF Blank(l)
@@ -423,6 +435,16 @@ RaiseErr ==
   /\ err' = "none"
   /\ UNCHANGED <<msgs, ref, buf, net, eof, hdr, bleft, tr, delivered, recorded, reqRecorded, reqSent, stalled,
                  reqRecs, respRecs, reqBlock, respBlock, linked, warcDone>>
+
+\* the reads with their nondeterministic choice: how far the buffer extends once the line is in (j), how many
+\* octets the arriving piece has (k)
+HdrLine   == \E j \in LineExtents : HdrLineAt(j)
+ChHdr     == \E j \in LineExtents : ChHdrAt(j)
+ChNl      == \E j \in LineExtents : ChNlAt(j)
+Trailer   == \E j \in LineExtents : TrailerAt(j)
+LenRead   == LenEOF \/ \E k \in PieceChoices : LenReadAt(k)
+CloseRead == CloseEOF \/ \E k \in PieceChoices : CloseReadAt(k)
+ChBody    == ChBodyEOF \/ \E k \in PieceChoices : ChBodyAt(k)
 
 Next == Start \/ Stall \/ HdrLine \/ Body \/ LenDone \/ LenRead \/ CloseRead \/ ChHdr \/ ChBody \/ ChNl
         \/ Trailer \/ Fin \/ FinNb \/ RaiseErr
